@@ -160,6 +160,7 @@ func (s *serverSocketStore) getAndRemoveAll() (sockets []*serverSocket) {
 	}
 	s.socketsByID = make(map[SocketID]*serverSocket)
 	s.socketsByNsp = make(map[string]*serverSocket)
+	vhook.Event("connstore.takeall", "o", s, "n", len(sockets))
 	return
 }
 
@@ -168,6 +169,7 @@ func (s *serverSocketStore) set(socket *serverSocket) {
 	defer s.mu.Unlock()
 	s.socketsByID[socket.ID()] = socket
 	s.socketsByNsp[socket.nsp.Name()] = socket
+	vhook.Event("connstore.set", "o", s, "sid", socket.ID(), "nsp", socket.nsp.Name())
 }
 
 func (s *serverSocketStore) removeByID(sid SocketID) {
@@ -178,6 +180,7 @@ func (s *serverSocketStore) removeByID(sid SocketID) {
 		delete(s.socketsByID, sid)
 		delete(s.socketsByNsp, socket.nsp.Name())
 	}
+	vhook.Event("connstore.remove", "o", s, "sid", sid, "found", ok)
 }
 
 func (s *nspStore) getOrCreate(
